@@ -14,7 +14,7 @@ Definition rename (l : list (id * id)) (x : id) : id :=
   match alookup (rev l) x with Some y => y | None => x end.
 
 Definition advans : list nat := [1; 2; 3; 4; 11; 12].
-Definition transes : list nat := [1; 2; 3; 4].
+Definition transes : list nat := [1; 2; 3; 4; 5; 6].
 Definition has_depot (a : nat) : bool := match a with 2 | 4 | 12 => true | _ => false end.
 Definition nperiph (a : nat) : nat := match a with 3 | 4 => 1 | 11 | 12 => 2 | _ => 0 end.
 (* one structural step: a depot added/removed, or one peripheral compartment added/removed *)
@@ -82,6 +82,32 @@ Definition check_roles (c : nat * nat * nat) : bool :=
   | None => false
   end.
 
+(* ---- TRANS5 / TRANS6 --------------------------------------------------------------------------
+   new_advan_trans never keeps or chooses TRANS5/TRANS6: a model that had one of them is switched to
+   TRANS1 as soon as its ADVAN changes (its ALPHA/BETA/... parameters are then not the ones the ADVAN
+   reads — the situation explanation tag 28 of the check reports).  The TRANS6 entries of the rename
+   table are therefore only reachable when the caller passes trans = 'TRANS6' itself; they are checked
+   directly: on every adjacent pair of ADVANs that both accept TRANS6, with TRANS6 on both sides, the
+   table preserves roles, maps to the target's name and is injective. *)
+Definition check_choice56 (a' : nat) : bool :=
+  forallb (fun t0 => forallb (fun symq => match trans_choice false (Some t0) a' symq with
+                                         | Some 1 => true | _ => false end) [true; false]) [5; 6].
+
+Definition domain6 : list (nat * nat) :=
+  flat_map (fun a => flat_map (fun a' => if adjacent a a' && valid_trans a 6 && valid_trans a' 6 &&
+                                            nonempty (param_names a 6) && nonempty (param_names a' 6)
+                                         then [(a, a')] else []) advans) advans.
+
+Definition check_roles_at (a t0 a' t : nat) : bool :=
+  let d := pk_rename a a' t in
+  let src := param_names a t0 in
+  forallb (fun n =>
+      let n' := rename d n in
+      (Pos.eqb n' n || orole_eqb (role_of a' t n') (role_of a t0 n)) &&
+      forallb (fun m => negb (orole_eqb (role_of a' t m) (role_of a t0 n)) || Pos.eqb n' m) (param_names a' t) &&
+      forallb (fun n2 => Pos.eqb n2 n || negb (Pos.eqb (rename d n2) n')) src) src &&
+  forallb (fun p => negb (memid (fst p) src) || memid (snd p) (param_names a' t)) d.
+
 Lemma forallb_In {A} (f : A -> bool) l : forallb f l = true -> forall x, In x l -> f x = true.
 Proof. intros H x Hx. exact (proj1 (forallb_forall f l) H x Hx). Qed.
 
@@ -97,8 +123,17 @@ Proof. apply forallb_In. vm_compute. reflexivity. Qed.
 Theorem pk_rename_consistent : forall c, In c domain -> check_roles c = true.
 Proof. apply forallb_In. vm_compute. reflexivity. Qed.
 
+Theorem trans56_become_trans1 : forall a', In a' advans -> check_choice56 a' = true.
+Proof. apply forallb_In. vm_compute. reflexivity. Qed.
+
+Theorem pk_rename_consistent_trans6 : forall c, In c domain6 -> check_roles_at (fst c) 6 (snd c) 6 = true.
+Proof. apply forallb_In. vm_compute. reflexivity. Qed.
+
+Example domain6_cells : domain6 = [(3, 4); (3, 11); (4, 3); (4, 12); (11, 3); (11, 12); (12, 4); (12, 11)].
+Proof. vm_compute. reflexivity. Qed.
+
 (* non-vacuity: the domain has all 6 x adjacent combinations, and the table really renames there *)
-Example domain_size : length domain = 34.
+Example domain_size : length domain = 50.
 Proof. vm_compute. reflexivity. Qed.
 Example rename_example_3_4 :
   map (rename (pk_rename 3 4 4)) (param_names 3 4) = [P_CL; P_V2; P_Q; P_V3] /\
